@@ -165,6 +165,19 @@ Definition dec_mul (a b : dcl) : res dcl :=
   | (DPInf | DNInf), _ | _, (DPInf | DNInf) => Ok DPInf
   | _, _ => Ok DFin
   end.
+(* a / b (fix c04eaed: divided_by divides Decimals); DFin / DZero signals DivisionByZero, which is also a ZeroDivisionError *)
+Definition dec_div (a b : dcl) : res dcl :=
+  match a, b with
+  | DBad, _ | _, DBad => Err EArithmeticError
+  | DNan, _ | _, DNan => Ok DNan
+  | (DPInf | DNInf), (DPInf | DNInf) => Err EArithmeticError
+  | (DPInf | DNInf), _ => Ok DPInf
+  | _, DZero => Err EArithmeticError                       (* 0/0: InvalidOperation; x/0: DivisionByZero *)
+  | _, (DPInf | DNInf) => Ok DZero
+  | DZero, _ => Ok DZero
+  | _, _ => Ok DFin
+  end.
+Definition dec_div_by_zero (a b : dcl) : bool := match a, b with DFin, DZero => true | _, _ => false end.
 Definition dec_mod (imp : bool) (a b : dcl) : res dcl :=
   match a, b with
   | DBad, _ | _, DBad => Err EArithmeticError
@@ -244,7 +257,7 @@ Inductive num := NB (b : bool) | NI (z : Z) | NF (f : fcl).
 
 Definition num_arg (fx : fixes) (v : value) (default : option num) : res num :=
   match v with
-  | VBool b => Ok (NB b)
+  | VBool b => Ok (NI (b2z b))          (* a boolean counts as 0 / 1 (fix 2158e91; before: passed through as NB b) *)
   | VInt z => Ok (NI z)
   | VFloat f => Ok (NF f)
   | VStr s _ =>
@@ -384,9 +397,9 @@ Definition divided_by (n o : num) : res value :=
   match intlike n, intlike o with
   | Some x, Some y => if y =? 0 then Err EFilterArg (* ZeroDivisionError, caught in the filter *) else Ok (VInt (x / y))
   | _, _ =>
-      if num_too_big n || num_too_big o then Err EOverflowError
-      else if num_is_zero o then Err EFilterArg
-      else Ok some_float
+      do _ <- num_str n; do _ <- num_str o;
+      if dec_div_by_zero (dec_of_num n) (dec_of_num o) then Err EFilterArg      (* except ZeroDivisionError in the filter *)
+      else do _ <- dec_div (dec_of_num n) (dec_of_num o); Ok some_float
   end.
 
 Definition modulo (imp : bool) (n o : num) : res value :=
@@ -971,7 +984,7 @@ Definition run_exn_all_fast (c : ecase) : list obs :=
 (* primitive tables as observations, for the check against CPython *)
 Inductive pcase :=
 | PInt (v : value) | PFloatStr (s : scl) | PFloatToInt (f : fcl) | PStr (v : value)
-| PDecAdd (a b : dcl) | PDecSub (a b : dcl) | PDecMul (a b : dcl) | PDecMod (imp : bool) (a b : dcl)
+| PDecAdd (a b : dcl) | PDecSub (a b : dcl) | PDecMul (a b : dcl) | PDecDiv (a b : dcl) | PDecMod (imp : bool) (a b : dcl)
 | PDecOfNum (n : num) | PGetItem (o k : value) | PFloatOfInt (z : Z) | PJson (v : value).
 
 Definition dcl_is_bad (d : dcl) := match d with DBad => true | _ => false end.
@@ -986,6 +999,7 @@ Definition run_prim (c : pcase) : obs :=
   | PDecAdd a b => ob (dec_add a b)
   | PDecSub a b => ob (dec_sub a b)
   | PDecMul a b => ob (dec_mul a b)
+  | PDecDiv a b => ob (dec_div a b)
   | PDecMod i a b => ob (dec_mod i a b)
   | PDecOfNum n => if dcl_is_bad (dec_of_num n) then OForeign EArithmeticError else OOk
   | PGetItem o k => ob (py_getitem o k)
